@@ -160,13 +160,22 @@ def fn_spec(name, f, cuts=(), calls=True, scalar=True, rename=None):
 def lazy_fn_spec(name, thunk, cuts=(), calls=True, scalar=True, only=(), selects=False, nested=False):
     """like fn_spec, but the casadi.Function is (re)built by `thunk` INSIDE the extraction, so that the
     SERIES calls it makes stay calls (patched tables are active while `build` runs)"""
-    f0 = thunk()
+    try:
+        f0 = thunk()
+    except Exception as e0:   # noqa: BLE001 -- the entry point (or a probe of it) fails: recorded per function by gen.py, not fatal
+        def fail(e0=e0):
+            raise e0
+        return Spec(name, [], fail, cuts=cuts, calls=calls, scalar=scalar, only=only, selects=selects, nested=nested)
     ins = [(f0.name_in(i), tuple(f0.size_in(i))) for i in range(f0.n_in())]
     outs = [f0.name_out(i) for i in range(f0.n_out())]
     def build(*args):
         f = thunk()
         return list(zip(outs, f.call(list(args))))
     return Spec(name, ins, build, cuts=cuts, calls=calls, scalar=scalar, only=only, selects=selects, nested=nested)
+
+
+class ProbeError(Exception):
+    """an intermediate value that a proof is organised around is no longer produced by the body (a refactor, harmless or not)"""
 
 
 def probed(name, maker, probes, cuts=(), selects=False, only=(), nested=True):
@@ -197,7 +206,8 @@ def probed(name, maker, probes, cuts=(), selects=False, only=(), nested=True):
                 extra, names = [], []
                 for (owner, attr, what, index, outname) in probes:
                     calls = logs.get((id(owner), attr), [])
-                    assert len(calls) > index, "probe %s.%s: call %d not made" % (owner, attr, index)
+                    if len(calls) <= index:
+                        raise ProbeError("probe %s.%s: call %d not made (the body no longer has this intermediate value)" % (type(owner).__name__, attr, index))
                     a, res = calls[index]
                     val = ca.SX(a[0]) if what == "arg" else ca.SX(what(res))
                     extra.append(val); names.append(outname)
